@@ -163,7 +163,13 @@ fn named_const(rng: &mut Rng, s: &FlatSchema, n: &str, depth: usize, simple: boo
             if simple {
                 Val::Str(rng.pick_str(&["abc", "hello world", "x"]).to_string())
             } else {
-                Val::Str(rng.pick_str(&["abc", "with \"q\"", "é🚀", "", "multi\nline", "back\\slash"]).to_string())
+                Val::Str(
+                    rng.pick_str(&[
+                        "abc", "with \"q\"", "é🚀", "", "multi\nline", "back\\slash", "c1 \u{85} control", "del \u{7f}", "ls \u{2028} ps \u{2029}",
+                        "bom \u{feff}", "tab\tcr\r", "bell \u{7}", "\u{9f}",
+                    ])
+                    .to_string(),
+                )
             }
         }
         "Boolean" => Val::Bool(rng.bool()),
